@@ -19,7 +19,7 @@ mkdir -p "$out"
   [ -f "$src/meta.json" ] && cp "$src/meta.json" "$out/meta.agent.json"
 }
 L=/verif/.work/seedlogs/$name; mkdir -p "$L"
-V=/tmp/seedverify-$name-$$
+V=/tmp/seedverify-$name; git -C /repo worktree remove --force "$V" >/dev/null 2>&1; /verif/tools/cachecap.sh
 git -C /repo worktree add -q --detach "$V" HEAD || exit 2
 cleanup() { git -C /repo worktree remove --force "$V" >/dev/null 2>&1; [ "${SEED_IN_REPO:-0}" = 1 ] && git -C /repo checkout -- . 2>/dev/null; }
 trap cleanup EXIT
